@@ -47,6 +47,12 @@ Fixpoint tr (q : VS.query) : option q0 :=
   | VS.QVar x => Some (Z0Var (name_of x))
   | VS.QCall0 VS.F0Error => Some Z0Error
   | VS.QCall0 VS.F0Length => Some Z0Length
+  | VS.QArray q => option_map Z0Array (tr q)
+  | VS.QReduce src x init upd =>
+      match tr src, tr init, tr upd with
+      | Some s, Some i, Some u => Some (Z0Reduce s (name_of x) i u)
+      | _, _, _ => None
+      end
   | _ => None
   end.
 
@@ -154,6 +160,8 @@ Proof.
   - destruct h as [h|].
     + destruct (tr q) eqn:E1; try discriminate. destruct (tr h) eqn:E2; try discriminate. injection H as <-. cbn. split; eauto.
     + destruct (tr q) eqn:E1; try discriminate. cbn in H. injection H as <-. cbn. split; eauto.
+  - destruct (tr q) eqn:E1; try discriminate. cbn in H. injection H as <-. cbn. eauto.
+  - destruct (tr q1) eqn:E1, (tr q2) eqn:E2, (tr q3) eqn:E3; try discriminate. injection H as <-. cbn. repeat split; eauto.
   - destruct (tr q1) eqn:E1, (tr q2) eqn:E2; try discriminate. injection H as <-. cbn. repeat split; eauto.
   - injection H as <-. cbn [ok0]. split; [reflexivity|apply name_of_not_env].
   - destruct f; injection H as <-; exact I.
@@ -235,6 +243,115 @@ Proof.
   cbn [VD.den]. destruct (VD.den nt a rho v) as [ws [[e|lb]|]]; destruct h; reflexivity.
 Qed.
 
+(* [q] *)
+Definition arr_s (a : result) : result :=
+  match a with (ws, None) => ([VArr ws], None) | (_, Some x) => ([], Some x) end.
+Definition arr_v (a : VD.result) : VD.result :=
+  match a with (ws, None) => ([VS.VArr ws], None) | (_, Some x) => ([], Some x) end.
+
+Lemma R_array a a' : R a a' -> R (arr_s a) (arr_v a').
+Proof.
+  intros [[Ea Xa]|(why & pre & post & Sa & Pa & Ea)]; destruct a as [ws x], a' as [ws' x']; cbn [fst snd] in *.
+  - destruct x as [[[|d] c val| | | | |]|], x' as [[e|lb]|]; cbn [xrel] in Xa; try contradiction; cbn [arr_s arr_v].
+    + left. split; [reflexivity|exact Xa].
+    + left. split; [|exact I]. cbn [fst map emb_v]. rewrite Ea. reflexivity.
+  - subst x. cbn [arr_s]. right. exists why, [], (fst (arr_v (ws', x'))). auto.
+Qed.
+
+(* reduce *)
+Definition red_s (src : result) (upd : jv -> jv -> result) (s0 : jv) : result :=
+  let '(ws, sx) := src in
+  match reduce_fold0 upd ws s0 with
+  | inr e => ([], Some e)
+  | inl acc => match sx with Some e => ([], Some e) | None => ([acc], None) end
+  end.
+Definition red_v (src : VD.result) (upd : VS.jv -> VS.jv -> VD.result) (s0 : VS.jv) : VD.result :=
+  let '(ws, sx) := src in
+  match VD.reduce_fold upd ws s0 with
+  | inr e => ([], Some e)
+  | inl acc => match sx with Some e => ([], Some e) | None => ([acc], None) end
+  end.
+
+Definition fold_rel (a : jv + exn) (b : VS.jv + VD.exn) : Prop :=
+  match a, b with
+  | inl x, inl y => x = emb_v y
+  | inr (XErr O c val), inr (VD.XErr e) => erel c val e
+  | inr (XSkip _), _ => True
+  | _, _ => False
+  end.
+
+Lemma last_emb us acc : last (map emb_v us) (emb_v acc) = emb_v (last us acc).
+Proof. induction us as [|u r IH]; [reflexivity|]. cbn [map last]. destruct r; [reflexivity|exact IH]. Qed.
+
+Lemma fold_rel_ind upd upd' : (forall w acc, R (upd (emb_v w) (emb_v acc)) (upd' w acc)) ->
+  forall ws acc, fold_rel (reduce_fold0 upd (map emb_v ws) (emb_v acc)) (VD.reduce_fold upd' ws acc).
+Proof.
+  intros Hu. induction ws as [|w r IH]; intros acc; cbn [map reduce_fold0 VD.reduce_fold]; [reflexivity|].
+  destruct (Hu w acc) as [[Eu Xu]|(why & pre & post & Su & _ & _)];
+    destruct (upd (emb_v w) (emb_v acc)) as [us x], (upd' w acc) as [us' x']; cbn [fst snd] in *.
+  - destruct x as [[[|d] c val| | | | |]|], x' as [[e|lb]|]; cbn [xrel] in Xu; try contradiction.
+    + exact Xu.
+    + unfold VD.last_or. rewrite Eu, last_emb. apply IH.
+  - subst x. exact I.
+Qed.
+
+Lemma reduce_fold_app upd a b acc :
+  VD.reduce_fold upd (a ++ b) acc = match VD.reduce_fold upd a acc with inl acc' => VD.reduce_fold upd b acc' | inr e => inr e end.
+Proof.
+  revert acc. induction a as [|w a IH]; intros acc; cbn [app VD.reduce_fold]; [reflexivity|].
+  destruct (upd w acc) as [us [x|]]; [reflexivity|apply IH].
+Qed.
+
+Lemma R_reduce src src' upd upd' : R src src' ->
+  (forall w acc, R (upd (emb_v w) (emb_v acc)) (upd' w acc)) ->
+  forall s0, R (red_s src upd (emb_v s0)) (red_v src' upd' s0).
+Proof.
+  intros Hs Hu s0. destruct src as [ws sx], src' as [ws' sx'].
+  destruct Hs as [[Es Xs]|(why & pre & post & Ss & Ps & Es)]; cbn [fst snd] in *; unfold red_s, red_v.
+  - subst ws. pose proof (fold_rel_ind upd upd' Hu ws' s0) as HF.
+    destruct (reduce_fold0 upd (map emb_v ws') (emb_v s0)) as [a|e], (VD.reduce_fold upd' ws' s0) as [a'|e']; cbn [fold_rel] in HF.
+    + subst a. destruct sx as [[[|d] c val| | | | |]|], sx' as [[e|lb]|]; cbn [xrel] in Xs; try contradiction.
+      * left. split; [reflexivity|exact Xs].
+      * left. split; [reflexivity|exact I].
+    + contradiction.
+    + destruct e as [[|d] c val| | | | |]; try contradiction. destruct sx' as [e0|]; right; [exists why, [], []|exists why, [], [a']]; cbn; auto.
+    + destruct e as [[|d] c val| | | | |]; try contradiction.
+      * destruct e' as [e'|lb]; [|contradiction]. left. split; [reflexivity|exact HF].
+      * right. exists why, [], []. auto.
+  - subst ws sx ws'. rewrite reduce_fold_app. pose proof (fold_rel_ind upd upd' Hu pre s0) as HF.
+    destruct (reduce_fold0 upd (map emb_v pre) (emb_v s0)) as [a|e], (VD.reduce_fold upd' pre s0) as [a'|e']; cbn [fold_rel] in HF.
+    + right. exists why, [], (fst (match VD.reduce_fold upd' post a' with
+                                   | inl acc => match sx' with Some e => ([], Some e) | None => ([acc], None) end
+                                   | inr e => ([], Some e) end)). auto.
+    + contradiction.
+    + destruct e as [[|d] c val| | | | |]; try contradiction. right. exists why0, [], (fst (match VD.reduce_fold upd' post a' with
+                                   | inl acc => match sx' with Some e => ([], Some e) | None => ([acc], None) end
+                                   | inr e => ([], Some e) end)). auto.
+    + destruct e as [[|d] c val| | | | |]; try contradiction.
+      * destruct e' as [e'|lb]; [|contradiction]. left. split; [reflexivity|exact HF].
+      * right. exists why0, [], []. auto.
+Qed.
+
+Lemma renv_bind1 rs rv x w : renv rs rv -> renv (BVar (name_of x) (plain (emb_v w)) :: rs) ((x, w) :: rv).
+Proof.
+  intros [Hv Hl]. split; [exact Hv|]. intros y. cbn [lookup_var VS.lookup].
+  rewrite name_of_eqb. rewrite N.eqb_sym. destruct (N.eqb y x); [reflexivity|apply Hl].
+Qed.
+
+Lemma den0_array_eq rs0 q rho v : den0 rs0 (Z0Array q) rho v = arr_s (den0 rs0 q rho v).
+Proof. cbn [den0]. destruct (den0 rs0 q rho v) as [ws [x|]]; reflexivity. Qed.
+Lemma den_array_eq nt q rho v : VD.den nt (VS.QArray q) rho v = arr_v (VD.den nt q rho v).
+Proof. cbn [VD.den]. destruct (VD.den nt q rho v) as [ws [x|]]; reflexivity. Qed.
+
+Lemma den0_reduce_eq rs0 src x init upd rho v :
+  den0 rs0 (Z0Reduce src x init upd) rho v =
+  rbind (den0 rs0 init rho v) (red_s (den0 rs0 src rho v) (fun w acc => den0 rs0 upd (BVar x (plain w) :: rho) acc)).
+Proof. reflexivity. Qed.
+Lemma den_reduce_eq nt src x init upd rho v :
+  VD.den nt (VS.QReduce src x init upd) rho v =
+  VD.bind (VD.den nt init rho v) (red_v (VD.den nt src rho v) (fun w acc => VD.den nt upd ((x, w) :: rho) acc)).
+Proof. reflexivity. Qed.
+
 Section Natives.
 Variable nt : VC.natives.
 (* what the link needs from the natives instance: they are Sem's, on embedded values *)
@@ -273,6 +390,11 @@ Proof.
     + destruct (tr q) eqn:E1; try discriminate. cbn in H. injection H as <-.
       rewrite den0_try_eq, den_try_eq. cbn [option_map].
       apply R_try; [eapply den_link; eassumption|exact I].
+  - (* array *) destruct (tr q) eqn:E1; try discriminate. cbn in H. injection H as <-.
+    rewrite den0_array_eq, den_array_eq. apply R_array. eapply den_link; eassumption.
+  - (* reduce *) destruct (tr q1) eqn:E1, (tr q2) eqn:E2, (tr q3) eqn:E3; try discriminate. injection H as <-.
+    rewrite den0_reduce_eq, den_reduce_eq. apply R_rbind; [eapply den_link; eassumption|]. intros s0.
+    apply R_reduce; [eapply den_link; eassumption|]. intros w acc. eapply den_link; [eassumption|]. apply renv_bind1. exact Hr.
   - (* bind *) destruct (tr q1) eqn:E1, (tr q2) eqn:E2; try discriminate. injection H as <-. cbn [den0 VD.den].
     apply R_rbind; [eapply den_link; eassumption|]. intros w. eapply den_link; [eassumption|]. apply renv_bind. exact Hr.
   - (* var *) injection H as <-. cbn [den0 VD.den]. destruct Hr as [Hv Hl]. rewrite Hl.
